@@ -8,7 +8,23 @@ let rec cstr_of (s: Stdlib.String.t) (i: int) = if i >= String.length s then Emp
 let cstr s = cstr_of s 0
 let char_of_ascii (Ascii (a, b, c, d, e, f, g, h)) = let v x k = if x then k else 0 in Char.chr (v a 1 + v b 2 + v c 4 + v d 8 + v e 16 + v f 32 + v g 64 + v h 128)
 let rec ostr = function EmptyString -> "" | String (a, r) -> String.make 1 (char_of_ascii a) ^ ostr r
-let punct_of = function "," -> PComma | "!" -> PBang | "'" -> PQuote | "&" -> PAmp | ":" -> PColon | "<" -> PLt | ">" -> PGt | ";" -> PSemi | "=" -> PEq | "+" -> PPlus | "-" -> PMinus | _ -> POther
+let esc (s: Stdlib.String.t) : Stdlib.String.t =
+  if s = "" then "%00" else
+  let b = Buffer.create 16 in
+  String.iter (fun c -> match c with ' ' -> Buffer.add_string b "%20" | '%' -> Buffer.add_string b "%25" | '\n' -> Buffer.add_string b "%0A" | '\t' -> Buffer.add_string b "%09" | '\r' -> Buffer.add_string b "%0D" | c -> Buffer.add_char b c) s;
+  Buffer.contents b
+let unesc (s: Stdlib.String.t) : Stdlib.String.t =
+  let b = Buffer.create 16 in
+  let n = String.length s in
+  let i = ref 0 in
+  while !i < n do
+    if s.[!i] = '%' && !i + 2 <= n - 1 then begin
+      (match String.sub s (!i + 1) 2 with "20" -> Buffer.add_char b ' ' | "25" -> Buffer.add_char b '%' | "0A" -> Buffer.add_char b '\n' | "09" -> Buffer.add_char b '\t' | "0D" -> Buffer.add_char b '\r' | "00" -> () | x -> Buffer.add_string b ("%" ^ x));
+      i := !i + 3 end
+    else begin Buffer.add_char b s.[!i]; incr i end
+  done;
+  Buffer.contents b
+let punct_of = function "#" -> PHash | "," -> PComma | "!" -> PBang | "'" -> PQuote | "&" -> PAmp | ":" -> PColon | "<" -> PLt | ">" -> PGt | ";" -> PSemi | "=" -> PEq | "+" -> PPlus | "-" -> PMinus | _ -> POther
 let rec parse_tt (toks: Stdlib.String.t list) : tt list * Stdlib.String.t list =
   match toks with
   | [] -> ([], [])
@@ -16,7 +32,12 @@ let rec parse_tt (toks: Stdlib.String.t list) : tt list * Stdlib.String.t list =
   | "I" :: s :: rest -> let (l, r) = parse_tt rest in (TId (cstr s) :: l, r)
   | "P" :: c :: rest -> let (l, r) = parse_tt rest in (TP (punct_of c) :: l, r)
   | "L" :: n :: rest -> let (l, r) = parse_tt rest in
-      let v = try int_of_string n with _ -> (try Scanf.sscanf n "%d" (fun x -> x) with _ -> 0) in (TLit (nat_of_int v) :: l, r)
+      let n = unesc n in
+      let digits = n <> "" && (let ok = ref true in String.iter (fun c -> if c < '0' || c > '9' then ok := false) n; !ok) && String.length n <= 6 in
+      let lit = if digits then LNat (nat_of_int (int_of_string n))
+                else if String.length n >= 2 && n.[0] = '"' then LStr (cstr (String.sub n 1 (String.length n - 2)))    (* next_literal strips the quotes *)
+                else LStr (cstr n) in
+      (TLit lit :: l, r)
   | g :: rest when String.length g = 2 && g.[0] = 'G' ->
       let (inner, rest1) = parse_tt rest in
       let (l, r) = parse_tt rest1 in
@@ -33,11 +54,26 @@ let rec show_ty (Ty (cat, wraps, rt, ao)) : Stdlib.String.t =
   let w = match wraps with None -> "-" | Some l -> "{ " ^ String.concat "" (List.map (fun t -> show_ty t ^ " ") l) ^ "}" in
   let r = match rt with None -> "-" | Some None -> "&" | Some (Some a) -> "&" ^ ostr a in
   Printf.sprintf "(%s %s %s %s)" c w r (match ao with None -> "-" | Some _ -> "as")
-let char_of_punct = function PComma -> "," | PBang -> "!" | PQuote -> "'" | PAmp -> "&" | PColon -> ":" | PLt -> "<" | PGt -> ">" | PSemi -> ";" | PEq -> "=" | PPlus -> "+" | PMinus -> "-" | POther -> "?"
+let char_of_punct = function PComma -> "," | PBang -> "!" | PQuote -> "'" | PAmp -> "&" | PColon -> ":" | PLt -> "<" | PGt -> ">" | PSemi -> ";" | PEq -> "=" | PPlus -> "+" | PMinus -> "-" | PHash -> "#" | POther -> "?"
 let rec show_tts (l: tt list) : Stdlib.String.t =
   String.concat "" (List.map (function
-    | TId s -> "I " ^ ostr s ^ " " | TP c -> "P " ^ char_of_punct c ^ " " | TLit n -> "L " ^ string_of_int (int_of_nat n) ^ " "
+    | TId s -> "I " ^ ostr s ^ " " | TP c -> "P " ^ char_of_punct c ^ " " | TLit (LNat n) -> "L " ^ string_of_int (int_of_nat n) ^ " " | TLit (LStr x) -> "L " ^ esc ("\"" ^ ostr x ^ "\"") ^ " "
     | TG (d, inner) -> (match d with Paren -> "G( " | Bracket -> "G[ " | Brace -> "G{ ") ^ show_tts inner ^ ") ") l)
+let show_atok = function AId x -> esc (ostr x) | ALit (LStr x) -> esc (ostr x) | ALit (LNat n) -> string_of_int (int_of_nat n)
+let show_attrs (l: atok list list) : Stdlib.String.t = String.concat "" (List.map (fun a -> "( " ^ String.concat "" (List.map (fun t -> show_atok t ^ " ") a) ^ ") ") l)
+let sorted (l: Stdlib.String.t list) : Stdlib.String.t = String.concat "" (List.map (fun x -> x ^ " ") (List.sort compare l))
+let show_generic = function
+  | GnConst (n, t, d) -> Printf.sprintf "C( %s %s %s )" (esc (ostr n)) (show_ty t) (match d with None -> "-" | Some (CValue v) -> "V" ^ string_of_int (int_of_nat v) | Some (CNamedC t2) -> "N " ^ show_ty t2)
+  | GnType (n, d, b) -> Printf.sprintf "T( [ %s] %s [ %s] )" (show_tts n) (match d with None -> "-" | Some t -> show_ty t) (sorted (List.map show_ty b))
+  | GnLife (n, b) -> Printf.sprintf "L( %s [ %s] )" (esc (ostr n)) (sorted (List.map (fun x -> esc (ostr x)) b))
+  | GnWhere (n, b) -> Printf.sprintf "W( [ %s] [ %s] )" (show_tts n) (sorted (List.map show_ty b))
+let show_opt_name = function None -> "-" | Some n -> esc (ostr n)
+let show_struct (st: strukt) : Stdlib.String.t =
+  Printf.sprintf "name=%s named=%d attrs=[ %s] generics=[ %s] fields=[ %s]" (show_opt_name st.s_name) (if st.s_named then 1 else 0) (show_attrs st.s_attrs)
+    (String.concat "" (List.map (fun g -> show_generic g ^ " ") st.s_generics))
+    (String.concat "" (List.map (fun f -> Printf.sprintf "{ [ %s] %s %s } " (show_attrs f.f_attrs) (show_opt_name f.f_name) (show_ty f.f_ty)) st.s_fields))
+(* the HashSet pass over bounds: duplicates removed (order is normalised by sorting on both sides) *)
+let rec nodup = function [] -> [] | x :: r -> x :: nodup (List.filter (fun y -> y <> x) r)
 let rec depth_tt l = List.fold_left (fun acc t -> acc + (match t with TG (_, inner) -> 1 + depth_tt inner | _ -> 1)) 0 l
 let () =
   iter_lines Sys.argv.(1) (fun line ->
@@ -53,4 +89,10 @@ let () =
       (match next_type fuel tts with
        | Ok (Some t, []) -> Printf.printf "FIELD %s PRINT %s\n" name (show_tts (pr t))
        | _ -> Printf.printf "FIELD %s PRINT -\n" name)
+    | "ITEM" :: name :: "TOKENS" :: toks ->
+      let (tts, _) = parse_tt toks in
+      let fuel = nat_of_int (depth_tt tts + 8) in
+      let r = match parse_data nodup nodup fuel tts with
+        | Ok (st, _) -> show_struct st | Panic -> "PANIC" | Unsup -> "UNSUP" | Fuel -> "FUEL" in
+      Printf.printf "ITEM %s PARSED %s\n" name r
     | _ -> ())
